@@ -8,5 +8,7 @@ export VERIF_TARGET="$ROOT/.target"
 mkdir -p "$ROOT/.target" "$ROOT/evidence" "$ROOT/replays"
 cd "$ROOT/harness"
 cargo build --release --offline --workspace 2>&1 | tail -3
+# the same binaries with debug assertions enabled (second pass of ./run, build-profile dimension)
+cargo build --profile verif-da --offline --workspace 2>&1 | tail -3
 # dependencies of the generated json! programs (C19), built once so that the check only compiles the programs
 "$ROOT/.target/release/chk-macro" --prebuild || true
